@@ -355,3 +355,23 @@ def instr_item(rng, mn, ops, substr_ok=True, with_ops_p=0.6):
         if pats:
             return {name: pats}
     return name
+
+
+_OBJ_CACHE: dict = {}
+
+
+def objdump_of(elf: bytes, sections=None, style="att"):
+    """Harness-side disassembly of object bytes: (rc, text).  Cached per content/sections."""
+    key = (util.digest(elf), tuple(sections or ()), style)
+    if key in _OBJ_CACHE:
+        return _OBJ_CACHE[key]
+    d = os.path.join(util.scratch_root(), f"as-{os.getpid()}")
+    os.makedirs(d, exist_ok=True)
+    p = os.path.join(d, "probe.o")
+    with open(p, "wb") as fh:
+        fh.write(elf)
+    rc, out, _err, _argv = harness_objdump("probe.o", sections, style, cwd=d)
+    if len(_OBJ_CACHE) > 4096:
+        _OBJ_CACHE.clear()
+    _OBJ_CACHE[key] = (rc, out)
+    return rc, out
